@@ -1105,6 +1105,10 @@ func (a *Analysis) ruleOpValidity() {
 					provs = append(provs, m.Reg.Groups[Ident{T: op.Op.Id.T, Group: op.Op.Id.Group}]...)
 				}
 				seenC01, seenC02 := false, false
+				if len(provs) > 0 {
+					// "... are resolvable under exactly those identities"
+					a.add("C04", "C04.ident", regShape(m.regs[provs[0].Reg])+"/unresolvable", "op%d %s: identity %s is registered (r%d output %d) and nothing failed, yet it cannot be resolved: %v", op.GID, op.Op, provs[0].Id, provs[0].Reg, provs[0].OutIdx, firstLine(op.Err))
+				}
 				for _, pv := range provs {
 					switch r := m.regs[pv.Reg]; {
 					case r.Life == LSingleton && !seenC01:
